@@ -18,7 +18,8 @@ import vfs  # noqa: E402
 
 logging.disable(logging.CRITICAL)
 
-BLOB_RE = re.compile(r'^((?:0x[0-9a-f]{2}/){7}0x[0-9a-f]{2})/0x([0-9a-f]{16})\.blob$')
+BLOB_RE = re.compile(r'^((?:0x[0-9a-f]{2}/){7}0x[0-9a-f]{2})/0x([0-9a-f]{16})\.blob$')      # bushy layout
+LAWN_RE = re.compile(r'^0x([0-9a-f]{1,16})/0x([0-9a-f]{16})\.blob$')                           # lawn layout
 
 
 def u64(b):
@@ -33,7 +34,10 @@ def key_of_rel(rel):
     """'0x00/…/0x01/0x03f….blob' (relative to the blob dir) -> (oid, tid) or None"""
     m = BLOB_RE.match(rel)
     if not m:
-        return None
+        m = LAWN_RE.match(rel)
+        if not m:
+            return None
+        return int(m.group(1), 16), int(m.group(2), 16)
     oid = int(''.join(x[2:] for x in m.group(1).split('/')), 16)
     return oid, int(m.group(2), 16)
 
@@ -74,14 +78,18 @@ def errname(e):
 class Env:
     """one real storage (+ optional DB) below `root`"""
 
-    def __init__(self, root, flavor, keep_old=False, pack_gc=True, hex=False):
-        import ZODB.blob
-        from ZODB.FileStorage import FileStorage
-        from ZODB.MappingStorage import MappingStorage
+    def __init__(self, root, flavor, keep_old=False, pack_gc=True, hex=False, layout=None, via_config=False,
+                 oid_base=0, db_opts=None):
         self.root = os.path.realpath(root)
         os.makedirs(self.root)
         self.flavor = flavor
         self.keep_old = keep_old
+        self.pack_gc = pack_gc
+        self.hex = hex
+        self.layout = layout
+        self.via_config = via_config
+        self.oid_base = oid_base
+        self.db_opts = dict(db_opts or {})
         self.blob_dir = os.path.join(self.root, 'blobs')
         self.rec = vfs.Recorder(self.root)
         self._vfs = vfs.install(self.rec)
@@ -89,13 +97,18 @@ class Env:
         self.blobfile_opens = []
         self._patch_blobfile()
         self._patch_bound_os()
-        if flavor == 'fs':
-            self.storage = FileStorage(os.path.join(self.root, 'Data.fs'), blob_dir=self.blob_dir,
-                                       pack_keep_old=keep_old, pack_gc=pack_gc)
-            self.base = self.storage
-        else:
-            self.base = MappingStorage()
-            self.storage = ZODB.blob.BlobStorage(self.blob_dir, self.base)
+        if layout is not None:
+            # a pre-existing blob directory that carries a layout marker ('lawn': the old flat layout)
+            os.makedirs(os.path.join(self.blob_dir, 'tmp'))
+            with vfs._real_open(os.path.join(self.blob_dir, '.layout'), 'w') as f:
+                f.write(layout)
+        self._make_storage()
+        if oid_base:
+            # oids beyond 2^16 / with 0xff and 0x00 bytes: the blob path is derived from the oid's bytes
+            if flavor == 'fs':
+                self.storage.set_max_oid(p64(oid_base))
+            else:
+                self.base._oid = oid_base
         self.intern = Intern()
         self.lines = []          # model op lines
         self.real = []           # real observation per line
@@ -111,6 +124,36 @@ class Env:
         self.tie_breaks = []         # internal facts the model's atomic steps rely on, found violated
         self.intruder = None         # (txn, oid) of a transaction slipped in by the finish probe
         self.intruder_aborted = 0
+        self._wire()
+
+    def _make_storage(self):
+        import ZODB.blob
+        from ZODB.FileStorage import FileStorage
+        from ZODB.MappingStorage import MappingStorage
+        if self.via_config:
+            # the same storages built by ZODB.config from a configuration text
+            import ZODB.config
+            if not os.path.isdir(self.blob_dir):
+                os.makedirs(self.blob_dir)
+            if self.flavor == 'fs':
+                text = ('<filestorage>\n  path %s\n  blob-dir %s\n  pack-gc %s\n  pack-keep-old %s\n</filestorage>\n'
+                        % (os.path.join(self.root, 'Data.fs'), self.blob_dir,
+                           'true' if self.pack_gc else 'false', 'true' if self.keep_old else 'false'))
+                self.storage = ZODB.config.storageFromString(text)
+                self.base = self.storage
+            else:
+                text = '<blobstorage>\n  blob-dir %s\n  <mappingstorage/>\n</blobstorage>\n' % self.blob_dir
+                self.storage = ZODB.config.storageFromString(text)
+                self.base = self.storage._BlobStorage__storage
+        elif self.flavor == 'fs':
+            self.storage = FileStorage(os.path.join(self.root, 'Data.fs'), blob_dir=self.blob_dir,
+                                       pack_keep_old=self.keep_old, pack_gc=self.pack_gc)
+            self.base = self.storage
+        else:
+            self.base = MappingStorage()
+            self.storage = ZODB.blob.BlobStorage(self.blob_dir, self.base)
+
+    def _wire(self):
         self._interpose()
         self._probe_finish()
         # `top`: what the DB (and the iterator used for observation) talks to.  hex: a record-transforming
@@ -118,9 +161,19 @@ class Env:
         # methods it copies are the recorded ones; the blob layer below must untransform before asking
         # "is this a blob record?" (pack tags, undo's blob copy)
         self.top = self.storage
-        if hex:
+        if self.hex:
             from ZODB.tests.hexstorage import HexStorage
             self.top = HexStorage(self.storage)
+
+    def reopen(self):
+        """close the database / storage and open the same files again (saved index, same blob directory)"""
+        if self.db is not None:
+            self.db.close()
+        else:
+            self.storage.close()
+        self.db = None
+        self._make_storage()
+        self._wire()
 
     # ------------------------------------------------------------------ set-up / tear-down
     def _patch_blobfile(self):
@@ -148,7 +201,7 @@ class Env:
 
     def open_db(self):
         import ZODB
-        self.db = ZODB.DB(self.top)
+        self.db = ZODB.DB(self.top, **self.db_opts)
         return self.db
 
     def close(self):
